@@ -2,6 +2,7 @@ package main
 
 import (
 	"fmt"
+	"go/ast"
 	"go/types"
 	"os"
 	"sort"
@@ -191,6 +192,8 @@ func (v *Verifier) resetRun() {
 	v.allowed = nil
 	v.preamble = ""
 	v.ringFacts = map[string]bool{}
+	v.globals = map[*ssa.Global]*Object{}
+	v.globalInit = map[*ssa.Global]Value{}
 }
 
 func (v *Verifier) findFunc(pkg *ssa.Package, name string) *ssa.Function {
@@ -331,6 +334,17 @@ func (v *Verifier) runPartition(pkg *ssa.Package, fn *ssa.Function, c *Contract,
 	fr.top = true
 	fr.c = c
 	fr.part = p.label
+	for _, ct := range c.Cuts {
+		if ct.Kind == "block" && fr.blockEnds == nil {
+			if fd, ok := fn.Syntax().(*ast.FuncDecl); ok && fd.Body != nil {
+				for _, s := range fd.Body.List {
+					if bs, ok := s.(*ast.BlockStmt); ok {
+						fr.blockEnds = append(fr.blockEnds, bs.End())
+					}
+				}
+			}
+		}
+	}
 	st := &State{mem: map[*Object]Value{}, pc: F.True(), ghosts: map[string]*Term{}, srcVar: map[string]Value{}, srcAdr: map[string]bool{}}
 	env := map[ssa.Value]Value{}
 	st.envs = []map[ssa.Value]Value{env}
@@ -429,6 +443,13 @@ func (v *Verifier) runPartition(pkg *ssa.Package, fn *ssa.Function, c *Contract,
 			}
 		} else {
 			vars["result"] = ret
+			if rs.Len() == 1 {
+				if n := rs.At(0).Name(); n != "" && n != "_" {
+					if _, clash := vars[n]; !clash {
+						vars[n] = ret
+					}
+				}
+			}
 		}
 	}
 	pe := &SpecEnv{fr: fr, st: fin, old: fr.entry, vars: vars, pkg: pkg, fn: fn}
